@@ -118,3 +118,61 @@ Definition verdict {A} (fn : string) (show : A -> string) (agree : A -> bool) (c
   | Some x => ("DISAGREE " ++ fn ++ " " ++ show x)%string
   | None => ("AGREE " ++ fn ++ " " ++ dec_N (N.of_nat (List.length cands)))%string
   end.
+
+(** ** scripts: candidates for the push-data codec and the script classifiers (search/GenFuncsSearch_DecodeParts.v,
+    _Script_IsP2PK.v, ...): every script of at most 2 bytes; the standard templates with every byte position mutated,
+    every prefix of them, a byte appended; truncated and exact pushes in all four forms, with lengths whose little- and
+    big-endian readings differ; pushes of the boundary lengths 0, 1, 75, 76, 255, 256 *)
+Definition all_scripts_le2 : list bytes :=
+  [] :: map (fun b => [b]) all_bytes ++ flat_map (fun a => map (fun b => [a; b]) all_bytes) all_bytes.
+Definition push_of (d : bytes) : bytes :=
+  let n := N.of_nat (List.length d) in
+  if (n <=? 75)%N then n2b n :: d else if (n <=? 255)%N then x4c :: n2b n :: d
+  else if (n <=? 65535)%N then x4d :: le_enc 2 n ++ d else x4e :: le_enc 4 n ++ d.
+Definition tpl_p2pkh : bytes := [x76; xa9; x14] ++ repeat x11 20 ++ [x88; xac].
+Definition tpl_p2pk33 : bytes := x21 :: x02 :: repeat x11 32 ++ [xac].
+Definition tpl_p2pk65 : bytes := x41 :: x04 :: repeat x11 64 ++ [xac].
+Definition tpl_p2sh : bytes := [xa9; x14] ++ repeat x11 20 ++ [x87].
+Definition tpl_multisig : bytes := [x51] ++ (x21 :: x02 :: repeat x11 32) ++ (x21 :: x03 :: repeat x22 32) ++ [x52; xae].
+Definition tpl_multisig_short : bytes := [x51; x01; x02; x51; xae].
+Definition tpl_inscription : bytes :=
+  tpl_p2pkh ++ [x00; x63; x03; x6f; x72; x64; x51; x04; x74; x65; x78; x74; x00; x02; x68; x69; x68].
+Definition script_templates : list bytes :=
+  [ tpl_p2pkh; tpl_p2pk33; tpl_p2pk65; tpl_p2sh; tpl_multisig; tpl_multisig_short; [x51; x51; xae]; [x00; x00; xae];
+    tpl_inscription; tpl_inscription ++ [x6a; x01; x02]; tpl_inscription ++ [x4c; x00];
+    [x6a; x02; x01; x02]; [x00; x6a; x01; xff]; [x6a]; [x00; x6a];
+    [x76; xa9; x4c; x14] ++ repeat x11 20 ++ [x88; xac]; [x76; xa9; x00; x88; xac]; [x76; xa9; x4c; x00] ].
+Definition push_cases : list bytes :=
+  (* direct pushes: short by 1, exact, one more *)
+  [ [x05; x01; x02; x03; x04]; [x05; x01; x02; x03; x04; x05]; [x05; x01; x02; x03; x04; x05; x06]; [x4b]; x4b :: repeat x07 74; x4b :: repeat x07 75;
+    (* OP_PUSHDATA1 *)
+    [x4c]; [x4c; x00]; [x4c; x00; x51]; [x4c; x03; x01; x02]; [x4c; x03; x01; x02; x03]; [x4c; x03; x01; x02; x03; x04]; [x4c; xff];
+    x4c :: xff :: repeat x07 254; x4c :: xff :: repeat x07 255; x4c :: x4c :: repeat x07 76;
+    (* OP_PUSHDATA2: 0x0100 is 256 little-endian, 1 big-endian; 0x0001 is 1 little-endian, 256 big-endian *)
+    [x4d]; [x4d; x02]; [x4d; x00; x00]; [x4d; x02; x00; x01]; [x4d; x02; x00; x01; x02]; [x4d; x02; x00; x01; x02; x03];
+    [x4d; x01; x00; x09]; [x4d; x01; x00; x09; x0a]; [x4d; x00; x01; x09]; x4d :: x00 :: x01 :: repeat x07 255; x4d :: x00 :: x01 :: repeat x07 256;
+    x4d :: x00 :: x01 :: repeat x07 257; [x4d; xff; xff; x01];
+    (* OP_PUSHDATA4 *)
+    [x4e]; [x4e; x01]; [x4e; x01; x00; x00]; [x4e; x00; x00; x00; x00]; [x4e; x01; x00; x00; x00]; [x4e; x01; x00; x00; x00; x09];
+    [x4e; x01; x00; x00; x00; x09; x0a]; [x4e; x00; x00; x00; x01; x09]; [x4e; x00; x01; x00; x00; x09]; x4e :: x00 :: x01 :: x00 :: x00 :: repeat x07 256;
+    [x4e; xff; xff; xff; xff; x01]; [x4e; x00; x00; x00; x80; x01] ]
+  ++ flat_map (fun n => let p := push_of (repeat x07 n) in [p; p ++ [x51]; x51 :: p; p ++ p; removelast p])
+       [0; 1; 2; 75; 76; 77; 255; 256; 257]%nat.
+Definition script_candidates : list bytes := script_mutants script_templates ++ push_cases ++ all_scripts_le2.
+Definition show_script (b : bytes) : string := ("hex:" ++ hex_bytes b)%string.
+
+(** part lists (the input of EncodeParts, the output of DecodeParts) with the boundary lengths *)
+Definition boundary_part_lens : list nat := [0; 1; 2; 75; 76; 77; 255; 256; 257; 65535; 65536; 65537]%nat.
+Definition part_lists : list (list bytes) :=
+  let ps := map (fun n => repeat x07 n) boundary_part_lens ++ [[x00]; [x51]; [x81]; [x4c]] in
+  [] :: map (fun p => [p]) ps ++ flat_map (fun p => map (fun q => [p; q]) ps) ps
+  ++ map (fun p => [p; [x01]; p]) ps.
+Definition show_parts (l : list bytes) : string :=
+  ("parts:[" ++ join "," (map (fun p => if Nat.eqb (List.length p) 0 then "empty"%string else if Nat.leb (List.length p) 40 then hex_bytes p
+                                       else (dec_N (N.of_nat (List.length p)) ++ "x" ++ match p with b :: _ => hex_byte b | [] => "" end)%string) l) ++ "]")%string.
+Fixpoint list_eqb {A} (eqb : A -> A -> bool) (x y : list A) : bool :=
+  match x, y with
+  | [], [] => true
+  | a :: r, b :: s => eqb a b && list_eqb eqb r s
+  | _, _ => false
+  end.
